@@ -19,7 +19,11 @@ def main():
     ref = [None]
     base = [0]
 
+    armed = [scen != 'forked_worker']
+
     def cb(code, line):
+        if not armed[0]:
+            return
         cnt[0] += 1
         if cnt[0] == n_kill:
             l = ref[0]
@@ -77,6 +81,30 @@ def main():
         l.release()
         l.acquire()
         l.release()
+    elif scen == 'forked_worker':
+        # a pre-fork server: this process has used its lock object, forks a worker that inherits it and stays alive
+        # (idle, never touching the lock again); the worker takes the lock through the inherited object and is killed
+        l.acquire()
+        l.release()
+        sys.stdout.flush()
+        pid = os.fork()
+        if pid == 0:
+            armed[0] = True
+            l.acquire()
+            l.release()
+            os.write(1, f'TOTAL {cnt[0]}\n'.encode())
+            os._exit(0)
+        _, status = os.waitpid(pid, 0)
+        if os.WIFSIGNALED(status):
+            os.write(1, f'WORKER_DEAD {os.WTERMSIG(status)}\n'.encode())
+            import time
+            t0 = time.time()
+            got = []
+            signal.signal(signal.SIGTERM, lambda *a: got.append(1))
+            while not got and time.time() - t0 < 60:
+                time.sleep(0.01)
+            os.write(1, f'PARENT_VIEW {int(bool(l.is_locked))}\n'.encode())
+        return
     elif scen == 'del':
         l.acquire()
         ref[0] = None
